@@ -274,6 +274,13 @@ def c2s_records(rng, n):
                     sf = SSCSimfile.blank() if rng.random() < 0.5 else SMSimfile.blank()
                     key = rng.choice(["bpms", "stops", "delays", "warps"])
                     sf["BPMS"] = "0=120"
+                    if "VERSION" in sf and rng.random() < 0.5:
+                        # whatever VERSION says, the strings reach the engine as they are written
+                        v = rng.choice(["0.69", "0.5", "0.7", "0.83", "1", "", None])
+                        if v is None:
+                            del sf["VERSION"]
+                        else:
+                            sf["VERSION"] = v
                     sf[key.upper()] = text          # (an SM simfile can carry DELAYS / WARPS keys too)
                     if key == "bpms" and not text.strip():
                         continue
